@@ -305,3 +305,8 @@ Definition cyc_ok (i : cyc_in) (o : cyc_out) : bool :=
   | _ => false              (* an honest oracle failed, or honest oracles disagreed *)
   end.
 Definition cyc_judge := judge cyc_model cyc_oeqb cyc_ok (fun _ => 0%N).
+
+(* ---------- part execsys: whole execute cycles on real plugins with deviating oracles and reader failures, judged by
+   Check/ExecSys_check.v (its case terms use that module's constructors: 'coq_import' in lib/specs/C09.py) ---------- *)
+Require Verif.Check.ExecSys_check.
+Definition sys_judge := Verif.Check.ExecSys_check.sys_judge_noclass.
